@@ -17,7 +17,7 @@ RULE = ("directory trees (depth <=3, thorough <=5; empty directories, directorie
         "directories must equal the actual output tree exactly, and each page must equal the page of a separate "
         "single-file run after removing the title lines and the module name. Non-trivial: depth >=2, >=1 directory "
         "without CMake files and >=1 non-CMake file whose name contains 'cmake'; distinct by SHA-1 of the case")
-RULE_MORE = 'output directory prefilled with newer stale files under the names the run writes; a symbolic link to a subdirectory with input.follow_symlinks off / on (not followed = not processed, followed = an ordinary directory).'
+RULE_MORE = 'output directory prefilled with newer stale files under the names the run writes; a symbolic link to a subdirectory with input.follow_symlinks off / on (not followed = not processed, followed = an ordinary directory). Later: same path documented before the tree was filled; input through a symlinked parent; file links; two adjacent directory links.'
 ASSUMPTIONS = ["no exclude patterns (C15's domain)", "the input directory holds a .cmake file when auto-exclusion is on",
                "directory-listing orders are emulated by permuting os.scandir inside the harness process"]
 BUDGET = {"quick": {"shards": 8, "examples": 80}, "thorough": {"shards": 16, "examples": 1500}}
